@@ -218,13 +218,19 @@ add_enum([("tuple", [GEN_U, GEN_U]), ("unit", [])])
 # ---- #[derive(Component)] -------------------------------------------------------
 comp_defs, comp_tests = [], []
 KINDS = ["VecStorage", "DenseVecStorage", "HashMapStorage", "BTreeStorage", "DefaultVecStorage"]
-def add_comp(attr, expected_fmt, body="(u32);", generic=False, zst=False):
+def add_comp(attr, expected_fmt, body="(u32);", generic=False, zst=False, scope=None):
     name = fresh("Co")
     g = "<T: Send + Sync + 'static + Default>" if generic else ""
     use = f"{name}<u8>" if generic else name
     if name in EXCLUDE:
         return
-    comp_defs.append((name, f"#[derive(Component, Default)]\n{attr}\npub struct {name}{g}{body}"))
+    if scope:
+        # the definition lives in a module in which the name `specs` means something else: a global
+        # path must still reach the library, a relative one the local alias
+        decoy = "BTreeStorage" if scope == "HashMapStorage" else "HashMapStorage"
+        comp_defs.append((name, f"pub mod scope_{name} {{\n    pub mod specs {{ pub mod storage {{ pub type {scope}<T> = ::specs::storage::{decoy}<T>; }} }}\n    use ::specs::{{Component, DenseVecStorage}};\n    #[derive(Component, Default)]\n    {attr}\n    pub struct {name}{g}{body}\n}}\npub use scope_{name}::{name};"))
+    else:
+        comp_defs.append((name, f"#[derive(Component, Default)]\n{attr}\npub struct {name}{g}{body}"))
     comp_tests.append((use, expected_fmt.replace("@", use), attr))
 for k in KINDS:
     add_comp(f"#[storage({k})]", f"{k}<@>")
@@ -241,6 +247,14 @@ for k in KINDS:
     add_comp(f"/// documented\n#[allow(dead_code)]\n#[repr(C)]\n#[storage({k}<Self>)]", f"{k}<@>")
     add_comp(f"#[derive(Clone)]\n#[storage({k})]\n#[allow(dead_code)]", f"{k}<@>")
     add_comp(f"/// documented\n#[storage({k})]\n/// more\n#[repr(C)]", f"{k}<@>", body=" { a: u32, b: String }")
+    # global and relative paths inside a module with its own `specs::storage`
+    decoy = "BTreeStorage" if k == "HashMapStorage" else "HashMapStorage"
+    add_comp(f"#[storage(::specs::storage::{k})]", f"{k}<@>", scope=k)
+    add_comp(f"#[storage(::specs::storage::{k}<Self>)]", f"{k}<@>", scope=k)
+    add_comp(f"#[storage(::specs::storage::{k})]", f"{k}<@>", body="(pub T);", generic=True, scope=k)
+    add_comp(f"#[storage(specs::storage::{k})]", f"{decoy}<@>", scope=k)
+    add_comp(f"#[storage(specs::storage::{k}<Self>)]", f"{decoy}<@>", scope=k)
+add_comp("", "DenseVecStorage<@>", scope="VecStorage")
 add_comp("#[allow(dead_code)]", "DenseVecStorage<@>")
 add_comp("/// documented\n#[repr(C)]", "DenseVecStorage<@>", body=" { x: u32 }")
 add_comp("", "DenseVecStorage<@>")
